@@ -6,6 +6,7 @@ import (
 	"strings"
 
 	"verif/harness/hlib"
+	"verif/harness/life"
 )
 
 const Rule = "group scenario = f(seed): 1-2 brokers, 1-3 partitions with logs 0-14, pre-set committed offsets (none / valid / out of range), 0-2 ghost members, range/roundrobin/sticky, initial oldest/newest, auto-commit on/off, Rebalance.Retry.Max 0-4, coordinator script per request kind (rebalance in progress, unknown member, illegal generation, not coordinator, connection loss, load in progress), 1-4 successive sessions with handler behaviours drain / return early / mark a prefix, context cancel after a delay or Close during a session. non-trivial = distinct (script kinds, behaviours, ghosts, strategy) with at least one session that ran Setup"
@@ -24,8 +25,12 @@ func RunAll(run *hlib.Run, prop string, sigPrefixes []string, n int) {
 	if lines := run.ReplayLines(); lines != nil {
 		for _, l := range lines {
 			t := strings.Fields(l)
+			s, ok := life.ReplaySeed(t, "gs")
 			if len(t) >= 2 && t[0] == "gs" {
-				s, _ := strconv.ParseUint(t[1], 10, 64)
+				s, _ = strconv.ParseUint(t[1], 10, 64)
+				ok = true
+			}
+			if ok {
 				for k := 0; k < 10; k++ {
 					seeds = append(seeds, s)
 				}
@@ -68,6 +73,11 @@ func RunAll(run *hlib.Run, prop string, sigPrefixes []string, n int) {
 		}
 		for _, l := range TraceLines(res) {
 			run.Emit(l, "ok")
+		}
+		if res.Hang == "" {
+			for _, l := range res.Life {
+				run.Emit(l, "ok")
+			}
 		}
 		for _, f := range Check(res) {
 			mine := false
